@@ -146,6 +146,38 @@ def run(ctx):
 
     for it in range(ctx.budget(250, 3000)):
         one()
+    # the same object after earlier use: one backward run (povm() does this), then forward; forward twice; backward twice then forward
+    for _ in range(ctx.budget(80, 800)):
+        N = rng.choice([1, 2, 3, 3, 4])
+        prog = CU.rand_program(rng, N, rng.choice([1, 2, 3, 5, 8]))
+        klass = rng.choice(['CliffordCircuit', 'Circuit', 'gate'])
+        Ps = [G.rand_op(rng, N) for _k in range(4)]
+        scratch = [G.rand_op(rng, N) for _k in range(2)]
+        pre = rng.choice([('b',), ('b', 'b'), ('f',), ('b', 'f'), ('f', 'b')])
+        try:
+            if klass == 'gate':
+                prog = prog[:1]
+                obj = CU.impl_gate(impl, prog[0])
+            else:
+                obj = CI.CliffordCircuit(N) if klass == 'CliffordCircuit' else CI.Circuit(N)
+                for d in prog:
+                    obj.take(CU.impl_gate(impl, d))
+            ctx.case(('used-then-forward', klass, str(prog), pre, tuple(Ps)), True, sample=dict(op='forward after earlier runs', how=klass, earlier=pre, N=N))
+            ctx.count('used-then-forward:' + ''.join(pre))
+            for step in pre:
+                (obj.backward if step == 'b' else obj.forward)(impl.plist(scratch))
+            got = impl.ops_of(obj.forward(impl.plist(Ps)))
+            want = CU.oracle_forward(prog, Ps)
+            if got != want:
+                ctx.fail('%s.forward' % (type(obj).__name__), 'after earlier runs %s of the same object, forward is no longer the ordered product of its gates' % (pre,),
+                         dict(N=N, program=prog, Ps=Ps, earlier=pre, got=got, want=want))
+            gotb = impl.ops_of(obj.backward(impl.plist(Ps)))
+            wantb = CU.oracle_backward(prog, Ps)
+            if gotb != wantb:
+                ctx.fail('%s.backward' % (type(obj).__name__), 'after earlier runs %s and a forward run of the same object, backward is no longer the inverse product' % (pre,),
+                         dict(N=N, program=prog, Ps=Ps, earlier=pre, got=gotb, want=wantb))
+        except Exception as e:
+            ctx.fail(klass, 'implementation raised %r after earlier runs %s' % (e, pre), dict(N=N, program=prog))
     # a broken correspondence is not yet a violation: search the configurations that disagreed for an input on which the
     # property itself fails (forward differs from the ordered product)
     if ctx.mismatches and not ctx.failures:
